@@ -124,6 +124,7 @@ type Interp struct {
 	digitList  []*Term
 	lastNow    *Term
 	firstNow   *Term
+	symNames   map[string]StrV
 	clockWindow *Term
 	pid        *Term
 
@@ -189,6 +190,7 @@ func (in *Interp) resetPath() {
 	in.sums = nil
 	in.digitCache = map[*Term]StrV{}
 	in.digitList = nil
+	in.symNames = nil
 	in.lastNow = nil
 	in.firstNow = nil
 	in.clockWindow = nil
